@@ -308,17 +308,17 @@ def canBuild (c : Cl) (e : Ev) (p : PK) : Bool := !(c.g.pending.isSome) && !(sto
 /-- **nonadmin_proposal_refused_kinds** — the decision table of `process_proposal`, as equivalences.  The PROPOSER's role
     appears nowhere: only the proposal's type, whether it names its own sender, and whether the RECEIVER is an admin.
     * ignored (nothing stored): Update, GroupContextExtensions, everything else;
-    * stored pending: every Add; every Remove of somebody else; a member's own Remove at a non-admin receiver;
     * auto-committed: a member's own Remove at an admin receiver that can build the commit;
-    * reported `Unprocessable`: the same when the commit cannot be built. -/
+    * stored pending: every Add; every Remove of somebody else; a member's own Remove at a non-admin receiver — and (since
+      repair 0339cde, regenerated fact `autoCommitChecksBeforeStore`) at an admin receiver that cannot build the commit;
+    * `process_proposal` never fails: no proposal is answered `Unprocessable` by it. -/
 theorem nonadmin_proposal_refused_kinds (nx : Nat) (c : Cl) (e : Ev) (p : PK) :
     ((processProposal nx c e p).2 = .ignored ↔ (p = .update ∨ p = .gce ∨ p = .other)) ∧
     ((processProposal nx c e p).2 = .pending ↔
-        ((∃ w, p = .add w) ∨ ∃ t, p = .remove t ∧ ¬ (t = e.sender ∧ isAdmin c.g c.id = true))) ∧
+        ((∃ w, p = .add w) ∨ ∃ t, p = .remove t ∧ ¬ (t = e.sender ∧ isAdmin c.g c.id = true ∧ canBuild c e p = true))) ∧
     ((∃ ne, (processProposal nx c e p).2 = .proposalCommitted ne) ↔
         (p = .remove e.sender ∧ isAdmin c.g c.id = true ∧ canBuild c e p = true)) ∧
-    ((processProposal nx c e p).2 = .unprocessable ↔
-        (p = .remove e.sender ∧ isAdmin c.g c.id = true ∧ canBuild c e p = false)) := by
+    (processProposal nx c e p).2 ≠ .unprocessable := by
   cases p with
   | update => simp [processProposal]
   | gce => simp [processProposal]
@@ -342,9 +342,13 @@ theorem nonadmin_proposal_refused_kinds (nx : Nat) (c : Cl) (e : Ev) (p : PK) :
             simp only [canBuild, Bool.and_eq_false_iff, Bool.not_eq_false'] at hb
             rcases hb with hb | hb <;> simp [hb]
           have hp : (storeProp c.g e.sender (.remove e.sender)).pending = c.g.pending := by simp [storeProp]
-          simp [processProposal, ha, hp, hb', failUnprocessable]
+          simp [processProposal, ha, hp, hb', checksFirst, Generated.autoCommitChecksBeforeStore]
     · have ht' : (t == e.sender) = false := by simpa using ht
       simp [processProposal, ht', ht]
+
+/-- the fact the last two rows rest on, re-extracted from messages/proposal.rs on every run: `auto_commit_proposal` decides
+    whether the commit can be built BEFORE it stores the proposal (reverting repair 0339cde makes this — and the table — fail) -/
+theorem auto_commit_checks_first : Generated.autoCommitChecksBeforeStore = true := by decide
 
 /-- … in particular a NON-admin member's Remove of another member, and anybody's Add, are stored in the proposal store of
     every receiver — admin or not — where the next commit builder finds them (the real code does NOT keep the store to
@@ -461,7 +465,9 @@ theorem proposal_never_changes_roster (retry : Cl → Option (Cl × Res)) (nx : 
         intro g; unfold storeProp; simp only; split <;> simp
       split
       · split
-        · simpa [failUnprocessable, recordFailure, setRec] using hs c'.g
+        · split
+          · simpa [setRec] using hs c'.g
+          · simpa [failUnprocessable, recordFailure, setRec] using hs c'.g
         · simpa [setRec] using hs c'.g
       · simpa [setRec] using hs c'.g
   unfold step1P
